@@ -58,9 +58,9 @@ func c20Markings(n int) []string {
 
 func init() {
 	core.Register(&core.Check{
-		ID:    "C20",
-		Level: "exploration",
-		Rule: "(seal) texts of 20 classes (empty, ASCII, multi-byte, newlines, YAML-special, NUL, invalid UTF-8, up to 4 KiB) x 4 fresh key pairs (1024 and 2048 bit) + the embedded public key: round trip, then for each sealed value every single byte position of the raw envelope x {+1, ^0x80, 0x00, 0xFF} (sampled to 400 positions for long values), every truncation length (sampled), single-character substitutions and deletions in the base64 text, appended bytes, swapped halves, a sealed value of another text under the same key, the right text under another key; QuestionModel.Seal/Unseal of a text question whose answer is each text with leading/trailing blanks, newlines, tabs, NBSP and ideographic space. (verify) exhaustive grid: n = 2..5 choices x every assignment of outputs {matches, differs, differs by a trailing space} x every subset of marked letters incl. a letter beyond n and malformed markings x {single-choice, multiple-choice}, choices as inline code, text blocks and evy code blocks that are really executed; plus exercises whose text and image questions share program texts (print and draw), verified in random order in one process. distinct = distinct (text class, key, tampering) / question cells",
+		ID:          "C20",
+		Level:       "exploration",
+		Rule:        "(seal) texts of 20 classes (empty, ASCII, multi-byte, newlines, YAML-special, NUL, invalid UTF-8, up to 4 KiB) x 4 fresh key pairs (1024 and 2048 bit) + the embedded public key: round trip, then for each sealed value every single byte position of the raw envelope x {+1, ^0x80, 0x00, 0xFF} (sampled to 400 positions for long values), every truncation length (sampled), single-character substitutions and deletions in the base64 text, appended bytes, swapped halves, a sealed value of another text under the same key, the right text under another key; QuestionModel.Seal/Unseal of a text question whose answer is each text with leading/trailing blanks, newlines, tabs, NBSP and ideographic space. (verify) exhaustive grid: n = 2..5 choices x every assignment of outputs {matches, differs, differs by a trailing space} (+ questions whose choices differ only in final line breaks, every marking) x every subset of marked letters incl. a letter beyond n and malformed markings x {single-choice, multiple-choice}, choices as inline code, text blocks and evy code blocks that are really executed; plus exercises whose text and image questions share program texts (print and draw), verified in random order in one process. distinct = distinct (text class, key, tampering) / question cells",
 		Assumptions: []string{"closed-form oracle: a tampered or foreign-key value may be rejected or still yield the original, never another text; Verify accepts iff the marking is well formed and {marked} == {choices whose output equals the question's output}"},
 		NumCases: func(tier string) int {
 			seal := len(c20Texts) * 5
@@ -96,10 +96,82 @@ func c20Run(c *core.Ctx, i int) {
 		return
 	}
 	if blocks := (c20VerifyCells() + c20VerifyBlock - 1) / c20VerifyBlock; i-nSeal >= blocks {
+		if i-nSeal-blocks == 0 {
+			c20Newlines(c)
+		}
 		c20Mixed(c, i-nSeal-blocks)
 		return
 	}
 	c20Verify(c, (i-nSeal)*c20VerifyBlock)
+}
+
+// c20Newlines: outputs that differ only in their final line breaks are different outputs.
+func c20Newlines(c *core.Ctx) {
+	fence := func(src string) string {
+		return "- ```evy\n  " + strings.ReplaceAll(strings.TrimSuffix(src, "\n"), "\n", "\n  ") + "\n  ```\n"
+	}
+	type q struct {
+		question string
+		choices  []string
+		matching string // letters of the matching choices
+	}
+	qs := []q{
+		{"print \"Q\"\n", []string{"print \"Q\"\n", "printf \"Q\"\n", "printf \"Q\\n\\n\"\n", "printf \"Q\\n\"\n"}, "ad"},
+		{"printf \"Q\"\n", []string{"print \"Q\"\n", "printf \"Q\"\n", "printf \"%s\" \"Q\"\n"}, "bc"},
+		{"print \"\"\n", []string{"// prints nothing\n", "print \"\"\n", "printf \"\\n\\n\"\n"}, "b"},
+		{"print \"a\"\nprint \"b\"\n", []string{"printf \"a\\nb\"\n", "print \"a\\nb\"\n", "print \"a\"\nprint \"b\"\nprint \"\"\n"}, "b"},
+	}
+	for qi, qu := range qs {
+		md := "## Question\n\nWhich programs print the same as this one?\n\n```evy\n" + qu.question + "```\n\nChoose:\n\n"
+		for _, ch := range qu.choices {
+			md += fence(ch)
+		}
+		md += "- ```\n  zzz\n  ```\n" // a plain text choice (never matching) tells the model that text output is compared
+		// every non-empty subset of letters as marking
+		n := len(qu.choices) + 1
+		for mask := 1; mask < 1<<n; mask++ {
+			var letters []string
+			set := ""
+			for k := 0; k < n; k++ {
+				if mask&(1<<k) != 0 {
+					letters = append(letters, string(rune('a'+k)))
+					set += string(rune('a' + k))
+				}
+			}
+			want := set == qu.matching
+			atype := "multiple-choice"
+			if len(letters) == 1 && mask%2 == 1 {
+				atype = "single-choice"
+			}
+			fm := "type: question\ndifficulty: easy\nanswer-type: " + atype + "\nanswer: \"" + strings.Join(letters, ", ") + "\"\n"
+			var verr error
+			func() {
+				defer func() {
+					if p := recover(); p != nil {
+						verr = fmt.Errorf("panic: %v", p)
+						c.Violation("verify:crash", fmt.Sprintf("newline question %d marked %s: %v", qi, set, p), fm+"---\n"+md, nil)
+					}
+				}()
+				m, err := learn.NewQuestionModel("course/unit/exercise/q.md", learn.WithRawMD(fm, md))
+				if err != nil {
+					verr = err
+					return
+				}
+				verr = m.Verify()
+			}()
+			c.Event("questions_verified", 1)
+			c.Event("newline_questions_verified", 1)
+			c.Distinct(fmt.Sprintf("newline|%d|%s|%s", qi, set, atype))
+			if (verr == nil) != want {
+				kind := "accepts-wrong-marking"
+				if want {
+					kind = "rejects-right-marking"
+				}
+				c.Violation("verify:newline:"+kind, fmt.Sprintf("question %d (outputs differing only in final line breaks), marked %q as %s: Verify accepted=%v (%v); the choices with exactly the question's output are %q", qi, set, atype, verr == nil, verr, qu.matching), fm+"---\n"+md, nil)
+				return
+			}
+		}
+	}
 }
 
 // c20Mixed: questions of one exercise that share program texts but are judged by different kinds of
@@ -120,7 +192,7 @@ func c20Mixed(c *core.Ctx, n int) {
 	progBig := "print \"" + word + "\"\n" + draw(R)                                          // prints word, draws R
 	progBig2 := fmt.Sprintf("move 50 50\ncolor \"red\"\nprint \"%s\"\ncircle %d\n", word, R) // same text, same picture, other source
 	progSmall := "print \"" + word + "\"\n" + draw(R2)                                       // same text, other picture
-	progOther := "print \"other\"\n" + draw(R)                                              // other text, same picture
+	progOther := "print \"other\"\n" + draw(R)                                               // other text, same picture
 	fence := func(src string) string {
 		return "- ```evy\n  " + strings.ReplaceAll(strings.TrimSuffix(src, "\n"), "\n", "\n  ") + "\n  ```\n"
 	}
@@ -392,6 +464,9 @@ func c20ModelSeal(c *core.Ctx, kp, other learn.KeyPair, text string) {
 		c.Violation("seal:model-round-trip", fmt.Sprintf("%s: the stored sealed answer decrypts to %q (%v), the model held %q", desc, firstN(got, 80), err, firstN(before, 80)), fm, nil)
 		return
 	}
+	if a, err := m.ExportAnswerKey(); err != nil || len(a) == 0 {
+		_ = a // reading a sealed answer (as verification and export do) must not influence later sealing
+	}
 	if err := m.Unseal(); err != nil || m.Frontmatter.Answer != before || m.Frontmatter.SealedAnswer != "" {
 		c.Violation("seal:model-round-trip", fmt.Sprintf("%s: after Seal and Unseal the answer is %q (%v), before it was %q", desc, firstN(m.Frontmatter.Answer, 80), err, firstN(before, 80)), fm, nil)
 		return
@@ -418,6 +493,15 @@ func c20ModelSeal(c *core.Ctx, kp, other learn.KeyPair, text string) {
 			if got, err := learn.Decrypt(kp.Private, m2.Frontmatter.SealedAnswer); err != nil || got != before+" edited" {
 				c.Violation("seal:model-reseal-after-edit", fmt.Sprintf("%s: answer edited after Unseal, sealed again: decrypts to %q (%v)", desc, firstN(got, 80), err), fm, nil)
 			}
+			// ... and the model itself gives back the edited answer, a third time too
+			if err := m2.Unseal(); err != nil || m2.Frontmatter.Answer != before+" edited" {
+				c.Violation("seal:model-reseal-after-edit", fmt.Sprintf("%s: answer edited, sealed and unsealed on the same model: answer is %q (%v), expected %q", desc, firstN(m2.Frontmatter.Answer, 80), err, firstN(before+" edited", 80)), fm, nil)
+			}
+			m2.Frontmatter.Answer = "third " + before
+			if m2.Seal(kp.Public) == nil && (m2.Unseal() != nil || m2.Frontmatter.Answer != "third "+before) {
+				c.Violation("seal:model-reseal-after-edit", fmt.Sprintf("%s: third seal/unseal on one model: answer is %q", desc, firstN(m2.Frontmatter.Answer, 80)), fm, nil)
+			}
+			c.Event("model_reseals", 1)
 		}
 	}
 }
